@@ -75,3 +75,27 @@ Example C14_example :
        ([[0; 1]; [0; 1]; [1; 0]; [1#2; 1#2]] : list (list QN)) (fun _ => None) MTplus (0 : QN))
   = Some ([[0; 1]] : list (list QN), [0; 0; 0; 0]%Z, [[0%nat]]).
 Proof. vm_compute. reflexivity. Qed.
+
+(* "the best VIGILANCE-PASSING category ... and the second-best": both winners passed a vigilance at least as large as
+   the configured one, under every mode that never lowers it *)
+From Coq Require Import Reals.
+From ART Require Import NumR Bounds_R Topo_bound.
+Theorem C14_both_winners_passed_the_configured_vigilance :
+  forall (K : Kernel RN), k_inv K = [false] ->
+  forall Ms mode (eps : R) veto (v0 : list R), raising mode eps ->
+  forall fuel T r1 r2 v' l, length v0 = 1%nat ->
+    tsearch K Ms mode eps veto fuel v0 T None = (r1, r2, v', l) ->
+    passed K Ms mode v0 r1 /\ passed K Ms mode v0 r2.
+Proof.
+  intros K HK Ms mode eps veto v0 Hr fuel T r1 r2 v' l Hv H.
+  exact (tsearch_winners_passed K HK Ms mode eps veto v0 Hr fuel v0 T None r1 r2 v' l Hv (Rle_refl _) I H).
+Qed.
+(* the search as it was before /repo fix 79caf04 (tracking on every veto) returns a winner that fails the configured vigilance *)
+Theorem C14_search_before_fix_refuted :
+  exists (Ms : list (list (option QN))) (T : list (option QN)) (veto : nat -> bool) (rho : QN),
+    fst (fst (tsearch_before_fix (@fuzzyK QN (1#1024)%Q 1%Q) Ms MTplus 0%Q veto 2 [rho] T None)) = Some 1%nat /\
+    mbin Ms MTplus [false] [rho] 1 = false /\
+    fst (fst (fst (tsearch (@fuzzyK QN (1#1024)%Q 1%Q) Ms MTplus 0%Q veto 2 [rho] T None))) = None.
+Proof. exact tsearch_before_fix_refuted. Qed.
+Print Assumptions C14_both_winners_passed_the_configured_vigilance.
+Print Assumptions C14_search_before_fix_refuted.
